@@ -257,7 +257,7 @@ def run(ctx, anchors=None):
 
 MUTANTS = [
     dict(name="legacy-sigver-not-assigned", file="instance.cpp", find="        // legacy\n        sigver = SigVersion::BASE;\n", replace="        // legacy\n", expect=["R03.7:sigver-assigned-on-every-path", "R03.7:legacy-branch-is-BASE"]),
-    dict(name="vout-by-input-index", file="instance.cpp", find="    spent_outputs.emplace_back(txin->vout[txin_vout_index]);\n    txdata.Init(*tx.get(), std::move(spent_outputs), has_preamble);", replace="    spent_outputs.emplace_back(txin->vout[txin_index]);\n    txdata.Init(*tx.get(), std::move(spent_outputs), has_preamble);", expect=["R03.1:subscript=vout"]),
+    dict(name="vout-by-input-index", file="instance.cpp", find="    spent_outputs.emplace_back(txin->vout[txin_vout_index]);\n    txdata = PrecomputedTransactionData();", replace="    spent_outputs.emplace_back(txin->vout[txin_index]);\n    txdata = PrecomputedTransactionData();", expect=["R03.1:subscript=vout"]),
     dict(name="witness-of-wrong-input", file="instance.cpp", find="    auto& wstack = tx->vin[txin_index].scriptWitness.stack;", replace="    auto& wstack = tx->vin[txin_vout_index].scriptWitness.stack;", expect=["R03.1:subscript=vin"]),
     dict(name="select-ignored", file="instance.cpp", find="            txin_index = select_index;\n            txin_vout_index = tx->vin[select_index].prevout.n;\n        } else {", replace="        }\n        {", expect=["R03.2:select-honoured", "R03.2:select-branch"]),
     dict(name="vout-index-from-other-input", file="instance.cpp", find="            txin_vout_index = tx->vin[select_index].prevout.n;", replace="            txin_vout_index = tx->vin[0].prevout.n;", expect=["R03.1:vout-index-from-same-input"]),
